@@ -186,6 +186,15 @@ class Executor:
         self.stats = dict(paths=0, forks=0, solver_checks=0, solver_time=0.0, unsupported=0)
         self.on_call = None  # hook(state, callee, args) -> None | value
         self.coroutine_bodies = {}
+        self.type_modules = {}
+        self._by_method = {}
+        for name, bl in bodies.items():
+            for b in bl:
+                mm = re.search(r"::(\w+)$", name)
+                if mm and "{closure" not in name:
+                    self._by_method.setdefault(mm.group(1), []).append(b)
+                elif "::" not in name:
+                    self._by_method.setdefault(name, []).append(b)
         self.index = {}
         for name, bl in bodies.items():
             for b in bl:
@@ -444,6 +453,9 @@ class Executor:
         m = re.fullmatch(r"'(.)'", t)
         if m:
             return const_int(ord(m.group(1)), "char")
+        zm = re.match(r"^ZeroSized: (\{closure@.*\})$", t)
+        if zm:
+            return Agg("closure", zm.group(1), [])
         if t.startswith('"') or t.startswith('b"'):
             return Opaque("str:" + t[:40], "&str")
         pm = re.search(r"::(promoted\[\d+\])$", t)
@@ -467,7 +479,7 @@ class Executor:
             v = self.const_body_value(cands[0])
             if v is not None:
                 return v
-        m = re.fullmatch(r"(?:\w+::)*(\w+)::(MAX|MIN)", t)
+        m = re.fullmatch(r"(?:\w+::)*(\w+)::(MAX|MIN)", t) or re.fullmatch(r"(?:core|std)::num::<impl (\w+)>::(MAX|MIN)", t)
         if m and m.group(1) in INT_TYPES:
             w, s = INT_TYPES[m.group(1)]
             if m.group(2) == "MAX":
@@ -616,7 +628,14 @@ class Executor:
                 ov = z3.ULT(x, y) if not s else z3.Or(z3.Not(z3.BVSubNoOverflow(x, y)), z3.Not(z3.BVSubNoUnderflow(x, y, True)))
             else:
                 r = x * y
-                ov = z3.Not(z3.BVMulNoOverflow(x, y, s)) if not s else z3.Or(z3.Not(z3.BVMulNoOverflow(x, y, True)), z3.Not(z3.BVMulNoUnderflow(x, y)))
+                xs, ys = z3.simplify(x), z3.simplify(y)
+                if not s and (z3.is_bv_value(ys) or z3.is_bv_value(xs)):
+                    # multiplication by a constant: overflow iff the other factor exceeds MAX / c
+                    cst, var = (ys, x) if z3.is_bv_value(ys) else (xs, y)
+                    cv = cst.as_long()
+                    ov = z3.BoolVal(False) if cv == 0 else z3.UGT(var, bv(((1 << w) - 1) // cv, w))
+                else:
+                    ov = z3.Not(z3.BVMulNoOverflow(x, y, s)) if not s else z3.Or(z3.Not(z3.BVMulNoOverflow(x, y, True)), z3.Not(z3.BVMulNoUnderflow(x, y)))
             return Agg("tuple", "(int,bool)", [I(r, s), ov])
         if op == "Cmp":
             lt = (x < y) if s else z3.ULT(x, y)
@@ -824,7 +843,10 @@ class Executor:
                 work.extend(more)
             except Unsupported as e:
                 self.stats["unsupported"] += 1
-                outcomes.append(Outcome("unsupported", s, info=str(e)))
+                where = ""
+                if s.frames:
+                    where = " @ %s:%s" % (s.frames[-1].body.name.split("::")[-1], s.frames[-1].bb)
+                outcomes.append(Outcome("unsupported", s, info=str(e) + where))
                 self.stats["paths"] += 1
         return outcomes
 
@@ -1045,7 +1067,10 @@ class Executor:
                             rng.fields[0] = I(z3.simplify(cur.bv + 1), cur.signed)
                             from .models import mk_some
                             v2 = mk_some(dest_ty, cur)
-                        self.finish_call(s2, dest, v2, ret_bb, callee, args, log=False)
+                        if isinstance(v2, tuple) and v2 and v2[0] == "__inline__":
+                            self.push_frame(s2, v2[1], v2[2], dest, ret_bb)
+                        else:
+                            self.finish_call(s2, dest, v2, ret_bb, callee, args, log=False)
                         outs.append(s2)
                     self.stats["forks"] += max(0, len(outs) - 1)
                     if not outs:
@@ -1067,6 +1092,15 @@ class Executor:
                 except Unsupported:
                     pass
         return self.finish_call(st, dest, res, ret_bb, callee, args)
+
+    def closure_body(self, clo):
+        """MIR body of a closure value (matched on the `{closure@file:line:col}` type text)"""
+        clo = self.deref_value(clo)
+        if not (isinstance(clo, Agg) and clo.kind == "closure"):
+            return None
+        key = clo.name.strip("{}").split(" ")[0]
+        c = [b for n, bl in self.bodies.items() for b in bl if b.args and key in b.args[0][1] and "{closure#" in n]
+        return c[0] if len(c) == 1 else None
 
     def havoc_like(self, old, hint):
         if isinstance(old, I):
@@ -1108,7 +1142,41 @@ class Executor:
         return None
 
     # which callees to inline: decided by name tables built from the crate's bodies
+    def auto_resolve(self, callee, args):
+        """`Type::method` / `<Type as Trait>::method` / `module::function` -> unique crate body"""
+        c = self.strip_generics(callee.strip())
+        m = re.match(r"^<(.*?) as .*>::(\w+)$", c)
+        if m:
+            ty, meth = m.group(1), m.group(2)
+        else:
+            segs = c.split("::")
+            if len(segs) < 2:
+                cands = [b for b in self._by_method.get(c, []) if "<impl at" not in b.name]
+                return cands[0] if len(cands) == 1 and len(cands[0].args) == len(args) else None
+            ty, meth = segs[-2], segs[-1]
+        ty = re.sub(r"^&(?:mut )?", "", ty).split("::")[-1]
+        mod = self.type_modules.get(ty)
+        cands = [b for b in self._by_method.get(meth, []) if len(b.args) == len(args)]
+        if mod is not None:
+            c2 = [b for b in cands if b.name.startswith(mod + "::")]
+            if len(c2) == 1:
+                return c2[0]
+            # several impl blocks in the same module: use the self type of the first argument
+            c3 = [b for b in c2 if b.args and self.type_base(re.sub(r"^&(?:'\w+ )?(?:mut )?", "", b.args[0][1])) == ty]
+            if len(c3) == 1:
+                return c3[0]
+            return None
+        # free function in a module: `module::function`
+        c2 = [b for b in cands if b.name == ty + "::" + meth or b.name.endswith("::" + ty + "::" + meth)]
+        return c2[0] if len(c2) == 1 else None
+
     def resolve_callee(self, callee, args):
+        if self.inline == "auto":
+            c = callee.strip()
+            for pat in self.no_inline:
+                if re.search(pat, c):
+                    return None
+            return self.auto_resolve(c, args)
         if self.inline is None:
             return None
         c = callee.strip()
